@@ -1049,6 +1049,11 @@ func DecodeCashAddress(str string) (string, []byte, error) {
 		values[i] = byte(CharsetRev[c])
 	}
 
+	// The payload must at least hold the eight checksum symbols.
+	if len(values) < 8 {
+		return "", nil, errors.New("address is too short")
+	}
+
 	// Verify the checksum.
 	if !verifyChecksum(prefix, values) {
 		return "", nil, ErrChecksumMismatch
